@@ -2,25 +2,37 @@ from checks import rapid, plain, fuzz, REPLAY
 
 CHECK = dict(
         pkg="c17", level="exploration",
-        rule="1-3 queues (limit 1-3, default or reqmeta.DataNext priority), 2-5 workers each running a generated program of 1-10 ops over "
-             "element type reqmeta.Data (2/3) or struct{} as regsync/regbot use it (1/3, default priority only); {Acquire, TryAcquire, AcquireMulti(subset, with nil/duplicate entries), nested Acquire/TryAcquire with the AcquireMulti context, "
-             "release, repeated release, cancel the context of any worker}; engine 1 executes it under a generated schedule with exactly one "
-             "goroutine running between pqueue's hook points (0-200 generated choices, then run-until-blocked), engine 2 on free goroutines "
-             "(GOMAXPROCS 1/2/4/16, 10 executions per case). Non-trivial (engine 1) = the execution contained a cancellation racing with a "
-             "release on the same queue (both enabled at one step, a select with both channels ready, or a slot handed to an already "
-             "cancelled waiter) or an AcquireMulti over >=2 queues that met contention (a TryAcquire refused -> rollback, or blocked on its first queue); (engine 2) = a blocked waiter was really "
-             "cancelled or two workers multi-acquire intersecting sets. Distinct by (engine, queues, programs, schedule).",
+        rule="1-3 queues; Max as passed to pqueue.New in {-1, 0 (both default to 1), 1, 2, 3, 4, 5, 16, 64}; element type reqmeta.Data, struct{} (regsync/regbot) "
+             "or mixed per queue; priority function default, reqmeta.DataNext (kinds 0-4 x sizes incl. 0, negative, equal, the 4 MiB and 90 % cut-offs) or one "
+             "that returns an index outside the list (-1, beyond the end) or the last; nil queue pointers (reghttp host without a limit); 2-5 workers each "
+             "running a generated program of 1-10 ops over {Acquire, TryAcquire, AcquireMulti(subset, with nil/duplicate/other-type entries, empty list), "
+             "nested Acquire/TryAcquire with the AcquireMulti context, Acquire/TryAcquire/AcquireMulti with that context on other queues or another element "
+             "type, release (also from another goroutine), repeated release, cancel the context of any worker or the root context of all, context whose "
+             "deadline already passed}; ~7 % of the cases come from a template that queues 3-4 waiters behind 3-5 active entries (priority function with a "
+             "real choice). Engine 1 executes it under a generated schedule with exactly one goroutine running between pqueue's hook points (0-200 generated "
+             "choices, then run-until-blocked), engine 2 on free goroutines (GOMAXPROCS 1/2/4/16, 10 executions per case), engine 3 runs 2-6 concurrent "
+             "RegClient.BlobCopy calls between 1-3 model registries (reqConcurrent -1/0/1/2/3, mirrors) and an OCI layout, some cancelled before or at a "
+             "request. Non-trivial (engine 1) = the execution contained a cancellation racing with a release on the same queue (both enabled at one step, a "
+             "select with both channels ready, or a slot handed to an already cancelled waiter) or an AcquireMulti over >=2 queues that met contention (a "
+             "TryAcquire refused -> rollback, or blocked on its first queue); (engine 2) = a blocked waiter was really cancelled or two workers multi-acquire "
+             "intersecting sets; (engine 3) = two or more live copies share a limited host. Distinct by the whole case.",
         jobs=[REPLAY,
               rapid("prop", "TestVerifProp", 240_000, 12_000_000, sq=8, st=16, shrinktime="10s"),
               rapid("free", "TestVerifFree", 20_000, 500_000, sq=8, st=16,
-                    race=dict(quick=False, thorough=True), shrinktime="10s")],
+                    race=dict(quick=False, thorough=True), shrinktime="10s"),
+              # copy: no race detector yet - it reports a data race of reghttp itself (sortHostsCmp reads
+              # clientHost.backoffLast without the host mutex; proposed fix in
+              # /var/tmp/audit-patches/C17-obs-reghttp-sorthosts-reads-backoff-unlocked.diff). With that fix the job is
+              # race clean; then set race=dict(quick=False, thorough=True).
+              rapid("copy", "TestVerifCopy", 1_200, 40_000, sq=4, st=16, race=False, shrinktime="10s")],
         technique="property-based testing (rapid) of generated worker programs under (1) a schedule controller that owns every interleaving "
                   "point of internal/pqueue through build-tag hooks and (2) free-running goroutines with the race detector; oracles: "
                   "harness-side holder count, quiescence analysis (lost wake-up / deadlock), acquire result rules, final drain test",
         level_text="Generated-schedule search: every execution is checked for holder count <= limit at each admission, for a terminal state in "
                    "which all workers finished (programs obey a lock hierarchy, so any stuck state is the queue's fault), for acquire results (an error only "
                    "with a cancelled context and then nothing held), and for exactly `limit` free slots per queue afterwards. Exploration, not "
-                   "proof: 2.4e5 (quick) to 1.2e7 (thorough) owned schedules plus 2e5 to 5e6 free-running executions (thorough: race detector).",
+                   "proof: 2.4e5 (quick) to 1.2e7 (thorough) owned schedules plus 2e5 to 5e6 free-running executions (thorough: race detector) plus 2.4e3 to 8e4 executions of concurrent blob copies "
+                   "through regclient (all return, no throttle error, every host throttle has all its slots afterwards).",
         level_note="Trusted: the lock-hierarchy argument that makes generated programs deadlock free (harness/c17/core.go canBlock); the hook "
                    "placement in internal/pqueue (no yield inside a critical section). Residual nondeterminism: Go's select when both the "
                    "wake-up and the cancellation are ready (such cases are executed 4 times, replays 50 times). Not asserted: admission order "
